@@ -217,9 +217,7 @@ Lemma inertiaAbout_shift (Q : Vec3 R) bs :
 Proof.
   destruct Q as [[qx qy] qz]. unfold inertiaAbout, ssum, firstMoment, vsum. cbv zeta. cbv beta iota.
   unfold sym_add. cbn [fst snd]. unfold v3_add. cbn [nadd ROps].
-  teq.
-  all: match goal with |- lsum (map ?f bs) = _ => idtac end.
-  all: lsum_ind bs ltac:(dbody b; unfold bodyInertiaAbout; c15unf; ring).
+  teq; lsum_ind bs ltac:(dbody b; unfold bodyInertiaAbout; c15unf; ring).
 Qed.
 
 (** the reported system central inertia = sum over the bodies of (central inertia of b + point mass m_b at c_b - C),
